@@ -19,7 +19,7 @@ RULE = ("C01's schemas and reachable states (a valid prefix history), then faili
         "fields/include_field.py during loads/load; whenever such an operation raises, M-same compares values at all "
         "depths, user-defined flags and identities of nested configurations before/after; non-trivial = >= 2 "
         "raising listed operations judged; distinct = distinct (schema, history)")
-REQUIRED = ("same_checks", "raised:set", "raised:set-sub", "raised:ctor", "raised:listop", "raised:dictop",
+REQUIRED = ("dotted_into_dict_rejections", "corrupt_include_files", "same_checks", "raised:set", "raised:set-sub", "raised:ctor", "raised:listop", "raised:dictop",
             "raised:loads-unparsable", "raised:loads-include", "failpoint_injections_raised")
 ASSUMPTIONS = ["only the kinds of operation listed in the property are judged (a tree that parses but fails validation "
                "half way, extend / slice / update with a bad element are outside the statement)",
@@ -57,7 +57,7 @@ def generate(rng, ctx):
         for _ in range(rng.choice([1, 2])):
             tree = gen.tree_for(rng, schema, env, valid=True, partial=0.6)
             target = weighted(rng, [(3, "missing.cfg"), (2, "$DIR"), (1, "$DIR/nodir/x.cfg"), (1, "sub/missing.cfg"), (1, 5),
-                                    (1, "")])
+                                    (1, ""), (3, "$DIR/inc_corrupt.cfg"), (2, "$DIR/inc_good.cfg")])
             holder = tree
             parts = path.split(".")
             for ppart in parts[:-1]:
@@ -66,8 +66,26 @@ def generate(rng, ctx):
                     break
             else:
                 holder[parts[-1]] = target
-                ops.insert(rng.randrange(len(ops) + 1), {"op": "loads", "tree": tree, "fmt": rng.choice(history.FORMATS),
-                                                         "include_fail": target not in ("", 5)})
+                op = {"op": "loads", "tree": tree, "fmt": rng.choice(history.FORMATS), "include_fail": target not in ("", 5)}
+                if target == "$DIR/inc_corrupt.cfg":
+                    op["make_files"] = {"inc_corrupt.cfg": "corrupt"}
+                if target == "$DIR/inc_good.cfg":
+                    # this include resolves; the load is made to fail by another include of the same document (a chain)
+                    op["make_files"] = {"inc_good.cfg": {}}
+                    others = [q for q in inc if q != path]
+                    if not others:
+                        continue
+                    h2 = tree
+                    parts2 = others[0].split(".")
+                    for pp in parts2[:-1]:
+                        h2 = h2.setdefault(pp, {})
+                        if not isinstance(h2, dict):
+                            break
+                    else:
+                        h2[parts2[-1]] = "missing-second.cfg"
+                    if not isinstance(h2, dict):
+                        continue
+                ops.insert(rng.randrange(len(ops) + 1), op)
     for _ in range(rng.choice([1, 2, 3])):
         tree = gen.tree_for(rng, schema, env, valid=True, partial=0.5)
         ops.insert(rng.randrange(len(ops) + 1), {"op": "loads", "tree": tree, "fmt": rng.choice(history.FORMATS),
@@ -119,6 +137,10 @@ def targeted_ops(rng, schema, env):
                 return [k, gen.one_value(rng, vf, want, env)]
 
             start = dict((str(k), v) if kf is None else (k, v) for k, v in (kv("valid") for _ in range(2)) if k is not None)
+            for _ in range(2):
+                k, bad = kv("invalid")
+                if isinstance(k, str) and k and "." not in k:
+                    ops.append({"op": "set_dict_dotted", "path": path, "kv": [k, bad]})
             if start:
                 ops.append({"op": "set", "route": "attr", "path": path, "value": start})
                 good, bad = kv("valid"), kv("invalid")
@@ -168,6 +190,10 @@ def run(case, ctx, res):
                 listed = False
         if kind == "set-dynamic":
             kind = "set"
+        if out.get("dotted_into_dict"):
+            res.count("dotted_into_dict_rejections")
+        if op.get("make_files") and "corrupt" in op["make_files"].values():
+            res.count("corrupt_include_files")
         if not listed:
             res.count("raised_not_listed:" + kind)
             continue
